@@ -8,8 +8,8 @@ Python semantics assumed by this encoder (repeated in every evidence file that u
     Array Int -> Array Int -> elem) and its inner lists are distinct objects (no aliasing between
     rows -- a separate syntactic obligation checks every assignment to such a field is a fresh
     comprehension/literal);
-  * every subscript must be proved in range [0, len): negative (wrap-around) indexing is treated as
-    an error the code under contract must not rely on;
+  * subscripts follow CPython/numpy: an obligation -len <= i < len is generated (IndexError otherwise) and negative
+    indices count from the end;
   * list.index / list.pop / list.append / set.add / set.remove / `in` / dict get-set follow the
     CPython documentation (specified primitives, part of the trusted base, cross-checked at run
     time by evaluating the same contract on the real function);
@@ -30,6 +30,7 @@ def _has_quantifier(f):
     seen = set(); todo = [f]
     while todo:
         t = todo.pop()
+        if not isinstance(t, z3.ExprRef): continue
         if t.get_id() in seen: continue
         seen.add(t.get_id())
         if z3.is_quantifier(t): return True
@@ -198,6 +199,9 @@ class Opaque:
 
 
 def fresh_like(v, name):
+    if isinstance(v, bool): return fresh(name, BOOL)
+    if isinstance(v, int): return fresh(name, INT)
+    if isinstance(v, float): return fresh(name, REAL)
     if isinstance(v, SSeq): return SSeq.fresh(name, v.esort)
     if isinstance(v, SSeq2): return SSeq2.fresh(name, v.arrs.sort().range().range())
     if isinstance(v, SMat): return SMat(v.len, v.ncols, fresh(name, v.data.sort()))   # shape is immutable
@@ -414,8 +418,14 @@ class Exec:
         else: raise Undecided('write through non-reference')
 
     def in_range(self, ps, i, n, node, what='index'):
-        self.oblige('%s-in-range@L%d' % (what, node.lineno), ps, z3.And(zint(i) >= 0, zint(i) < zint(n)), node.lineno)
-        ps.pc.append(z3.And(zint(i) >= 0, zint(i) < zint(n)))
+        """CPython/numpy index semantics: -n <= i < n must hold (else IndexError), negative indices count from the
+        end.  Returns the normalised index."""
+        i, n = zint(i), zint(n)
+        ok = z3.And(i >= -n, i < n)
+        self.oblige('%s-in-range@L%d' % (what, node.lineno), ps, ok, node.lineno)
+        ps.pc.append(ok)
+        if z3.is_int_value(i): return i if i.as_long() >= 0 else z3.simplify(i + n)
+        return z3.If(i < 0, i + n, i)
 
     def raise_if(self, ps, cond, exc, exits):
         """fork an exceptional exit under cond; continue the current path under not cond"""
@@ -445,6 +455,12 @@ class Exec:
     def ev_Tuple(self, e, ps, exits): return Tup([self.ev(x, ps, exits) for x in e.elts])
 
     def ev_Attribute(self, e, ps, exits):
+        if isinstance(e.value, ast.Name) and e.value.id == 'np' and e.attr in ('inf', 'Inf', 'infty'):
+            import numpy
+            if not hasattr(numpy, e.attr):
+                # external reference that does not resolve: AttributeError at run/compile time -- a definite failure
+                self.oblige('external-reference-resolves:np.%s@L%d' % (e.attr, e.lineno), ps, z3.BoolVal(False), e.lineno, 'external')
+            return z3.Real('np.inf')
         base = self.ev(e.value, ps, exits)
         if isinstance(base, Ref) and isinstance(ps.heap[base.loc], Obj):
             o = ps.heap[base.loc]
@@ -546,20 +562,20 @@ class Exec:
             raise Undecided('tuple indexed by a symbolic value at line %d' % e.lineno)
         if isinstance(bv, SSeq):
             i = self.ev(e.slice, ps, exits)
-            self.in_range(ps, i, bv.len, e)
+            i = self.in_range(ps, i, bv.len, e)
             return bv[i]
         if isinstance(bv, SSeq2):
             i = self.ev(e.slice, ps, exits)
-            self.in_range(ps, i, bv.len, e)
+            i = self.in_range(ps, i, bv.len, e)
             if not isinstance(base, Ref): raise Undecided('nested list reached through a non-reference')
             return InnerRef(base.loc, zint(i))
         if isinstance(bv, SMat):
             idx = self.ev(e.slice, ps, exits)
             if isinstance(idx, Tup):
                 i, j = idx.items
-                self.in_range(ps, i, bv.len, e, 'row'); self.in_range(ps, j, bv.ncols, e, 'column')
+                i = self.in_range(ps, i, bv.len, e, 'row'); j = self.in_range(ps, j, bv.ncols, e, 'column')
                 return bv.at(i, j)
-            self.in_range(ps, idx, bv.len, e, 'row')
+            idx = self.in_range(ps, idx, bv.len, e, 'row')
             return self.alloc(ps, bv.row(idx))       # row view; read-only use
         if isinstance(bv, SDict):
             k = self.ev(e.slice, ps, exits)
@@ -636,8 +652,7 @@ class Exec:
                 return k
             if meth == 'pop':
                 if args:
-                    k = zint(args[0])
-                    self.in_range(ps, k, bv.len, e, 'pop-index')
+                    k = self.in_range(ps, zint(args[0]), bv.len, e, 'pop-index')
                 else:
                     k = bv.len - 1
                     self.raise_if(ps, bv.len == 0, 'IndexError', exits)
@@ -785,19 +800,23 @@ class Exec:
         if isinstance(target, ast.Subscript):
             base = self.ev(target.value, ps, exits)
             bv = self.deref(ps, base)
-            if isinstance(target.slice, ast.Slice): raise Undecided('slice store at line %d' % target.lineno)
+            if isinstance(target.slice, ast.Slice):
+                sl = target.slice
+                if sl.lower is None and sl.upper is None and sl.step is None and isinstance(bv, SSeq) and isinstance(value, (int, float, z3.ExprRef)):
+                    return self.write(ps, base, SSeq(bv.len, z3.K(INT, zint(value)) if bv.esort == INT else z3.K(INT, z3.ToReal(zint(value)) if zint(value).sort() == INT else zint(value))))
+                raise Undecided('slice store at line %d' % target.lineno)
             idx = self.ev(target.slice, ps, exits)
             if isinstance(bv, SSeq):
-                self.in_range(ps, idx, bv.len, target, 'store-index')
+                idx = self.in_range(ps, idx, bv.len, target, 'store-index')
                 return self.write(ps, base, bv.store(idx, value))
             if isinstance(bv, SMat) and isinstance(idx, Tup):
                 i, j = idx.items
-                self.in_range(ps, i, bv.len, target, 'store-row'); self.in_range(ps, j, bv.ncols, target, 'store-column')
+                i = self.in_range(ps, i, bv.len, target, 'store-row'); j = self.in_range(ps, j, bv.ncols, target, 'store-column')
                 return self.write(ps, base, bv.store(i, j, value))
             if isinstance(bv, SDict):
                 return self.write(ps, base, bv.set(idx, value))
             if isinstance(bv, SSeq2):
-                self.in_range(ps, idx, bv.len, target, 'store-index')
+                idx = self.in_range(ps, idx, bv.len, target, 'store-index')
                 return self.write(ps, base, bv.setrow(idx, self.deref(ps, value)))
             raise Undecided('subscript store on %s at line %d' % (type(bv).__name__, target.lineno))
         raise Undecided('assignment target at line %d' % target.lineno)
@@ -1060,6 +1079,10 @@ class Exec:
         return out
 
     def run(self):
+        with S.symbolic_mode():
+            return self._run()
+
+    def _run(self):
         c = self.c
         ps = self.prepare_entry()
         with S.symbolic_mode():
@@ -1151,9 +1174,29 @@ class Exec:
 # ---------------------------------------------------------------------------------------------
 # discharge
 
+def _uses_recfun(f, cache={}):
+    seen = set(); todo = [f]
+    while todo:
+        t = todo.pop()
+        if not isinstance(t, z3.ExprRef) or t.get_id() in seen: continue
+        seen.add(t.get_id())
+        if z3.is_app(t) and t.decl().kind() == z3.Z3_OP_RECURSIVE: return True
+        if z3.is_quantifier(t): todo.append(t.body())
+        else: todo.extend(t.children())
+    return False
+
+
 def discharge(ob, timeout_ms=10000):
     """-> (status, backend, secs, detail) with status in ok / refuted / unknown"""
     t = time.time()
+    # stage 1 (sound: dropping hypotheses only weakens what we may use): goals that do not mention the ghost
+    # recursive sums are tried without the hypotheses that do -- recursive definitions + quantifiers make z3 unfold forever
+    if not _uses_recfun(ob.goal):
+        light = [h for h in ob.hyps if not _uses_recfun(h)]
+        if len(light) < len(ob.hyps):
+            s = z3.Solver(); s.set('timeout', min(timeout_ms, 3000))
+            s.add(*light); s.add(z3.Not(ob.goal))
+            if s.check() == z3.unsat: return 'ok', 'z3', time.time() - t, ''
     s = z3.Solver(); s.set('timeout', timeout_ms)
     s.add(*ob.hyps); s.add(z3.Not(ob.goal))
     r = s.check()
